@@ -36,6 +36,16 @@ CLAIMS = {
         text="Machine-checked for every buffer and every finite sequence of requests and limit changes: word/words/bit64/typed requests return the little-endian words at the offset and advance by 4 per word, failures leave the offset and report it, string returns the bytes up to the first NUL (valid UTF-8), consumes nul/4+1 words, never beyond the buffer or the limit; after set_limit n the offset never passes offset+4n; no request panics (all slice/arith panic sites of the Rust text are explicit model outcomes proved unreachable under offset<=len). The pre-fix code violated this (3 panics, fixed by commit 2fc78a6, corpus runs first).",
         note="Trusted: Lean kernel + standard axioms; hand model Decoder.lean tied by the differential `dec` channel (seeded buffers/scripts, every one of the 56 generated typed methods exercised); slices <= isize::MAX; from_le_bytes; str::from_utf8 modelled by validUtf8 (fuzzed).",
         ref="DESIGN.md §8 C11"),
+    "C14": dict(
+        technique="Lean 4 theorem by induction on the parse loop of a statement-by-statement model of Parser::parse, for every table set, byte string and consumer behaviour; scripted-consumer differential against the real parser",
+        text="Machine-checked for all binaries and all consumer behaviours (a function from callback index to continue/stop/error): the callback trace has the shape initialize, header, instructions, finalize; every callback but the last was answered continue; a stop/error answer ends the parse at once with stop-requested / consumer-error carrying the consumer's value; finalize is called iff everything before succeeded; a parse error never calls finalize. Instruction-level parse errors live in their own type, so 'parse_inst never yields a consumer state' holds by construction.",
+        note="Trusted: Lean kernel + standard axioms; hand model Parser.lean tied by the differential (every callback position k x {stop,error} on valid, corrupted, truncated and empty binaries); theorem is modulo model panics, which C04/C11 exclude.",
+        ref="DESIGN.md §8 C14"),
+    "C10": dict(
+        technique="Lean 4 theorems characterising parse_literal and TypeTracker::track of the parser model (all widths, propagation, fresh tracker per parse); differential on seeded declaration/consumer histories with reused ids",
+        text="Machine-checked: the literal occupies one word for int 8/16/32, float 16/32 and unknown types, two words low-word-first for 64 bits, and is rejected with TypeUnsupported (nothing consumed) for every other width; declarations bind ids, value definitions propagate the tracked type of their result type, the newest binding wins; every parse starts from the empty tracker; the assembler emits 1 resp. 2 words. Tied to parser.rs/tracker.rs by histories over 5 deliberately reused ids so that state leaking between parses would surface.",
+        note="Trusted: Lean kernel + standard axioms; hand model (Parser.lean parseLiteral/Tracker) + differential harness; oracle restates the rule independently.",
+        ref="DESIGN.md §8 C10"),
 }
 
 
